@@ -116,11 +116,23 @@ def run_program(ctx, rng):
             ins |= block_dtypes(v)
         dt = str(np.result_type(*[np.dtype(d) for d in ins])) if ins else prog_dt
         if dt not in REAL or len(ins) > 1:
-            # mixed-dtype operands (e.g. abs(x) + y) are outside the rule: run, do not judge
+            # mixed-dtype operands (e.g. abs(x) + y, real array x complex vector): block dtypes of
+            # the result are not uniform by design, so the dtype rule is not applied - but an
+            # imaginary part must still never be discarded: ComplexWarning is an error, and the
+            # value must agree with the same step on complex128 / float64 twins
+            pre_m = [deep_twin(v) if (is_array(v) or is_vector(v)) else v for v in operands] if info.get("inplace") else None
             o = ctx.call(f, *operands)
-            if o.ok:
+            ctx.count("skipped", "dtype-rule-on-mixed-dtype-operands")
+            wit = {"op": name, "dtype": sorted(ins), "trace": trace[-8:], "operands": [describe(v) for v in operands if is_array(v)]}
+            if not o.ok:
+                if isinstance(o.exc, Warning):
+                    ctx.violation(f"complex-warning:{name.split(':')[0]}", f"{name} on operands of dtypes {sorted(ins)} emitted {o.exc!r} (imaginary part discarded)", wit)
+            else:
+                if dt in REAL and is_array(o.value) and not name.startswith(("construct", "qr", "svd")):
+                    ctx.evaluated()
+                    ctx.count("dtype", "mixed")
+                    twin_compare(ctx, name, f, pre_m if pre_m is not None else operands, o.value, dt, wit)
                 prog.admit(o.value)
-            ctx.count("skipped", "mixed-dtype-operands")
             dt = prog_dt
             continue
         o = ctx.call(f, *operands)
